@@ -19,6 +19,7 @@ import (
 // when every goroutine is blocked) turns a wedged control plane into a failed
 // assertion, natively as well.
 func VerifC18() {
+	verifrt.RaceDetect(verifrt.Bound("race", 0) == 1)
 	verifrt.Preemptions(verifrt.Bound("preempt", 1))
 	const local = uint64(1)
 	conn, err := cluster.NewConn(local, "n1:0", "")
